@@ -105,6 +105,7 @@ def run(chk):
     r3 = chk.rule("R14.3", "settings are frozen and key/value-normalised: BaseSettings.model_config, inherited by every settings class", 14)
     r4 = chk.rule("R14.4", "internal developer-mode escalations are exactly the enumerated four, and fitted components get the user's settings re-attached", 4)
     r5 = chk.rule("R14.5", "stored settings are the model's own settings", 2)
+    r6 = chk.rule("R14.6", "invalid combinations are rejected: all after-validators of each settings class, interpreted on a grid with a value on each side of every published boundary, accept/reject exactly as the published cross-field rules say", 6)
 
     census = census_all(chk)
     if not os.path.isfile(SPEC):
@@ -196,6 +197,10 @@ def run(chk):
                            f"{kk}: default {D[kk]!r}, documented {v!r}")
     if n_doc < 30:
         raise AnalysisError(f"documented settings oracle yielded only {n_doc} entries")
+
+    # ------------------------------------------------------------------ R14.6
+    from rules.settings_validators import run_rule as _cross_field
+    _cross_field(chk, r6, census)
 
     # ------------------------------------------------------------------ R14.2
     base = chk.repo.cls(BASE, "BaseSettings")
